@@ -48,6 +48,7 @@ var (
 	ObjectType       = reflect.TypeOf(ast.Object{})
 	RangeStmtType    = reflect.TypeOf(ast.RangeStmt{})
 	ScopeType        = reflect.TypeOf(ast.Scope{})
+	StarExprType     = reflect.TypeOf(ast.StarExpr{})
 
 	// Struct Pointers
 	CommentGroupPtrType = reflect.PtrTo(CommentGroupType)
@@ -60,6 +61,7 @@ var (
 	GenDeclPtrType      = reflect.PtrTo(GenDeclType)
 	IdentPtrType        = reflect.PtrTo(IdentType)
 	ObjectPtrType       = reflect.PtrTo(ObjectType)
+	StarExprPtrType     = reflect.PtrTo(StarExprType)
 	RangeStmtPtrType    = reflect.PtrTo(RangeStmtType)
 	ScopePtrType        = reflect.PtrTo(ScopeType)
 
